@@ -27,6 +27,7 @@ class Report:
         self.trusted = ["rustc nightly front end (HIR type check, MIR construction at mir-opt-level=0)",
                         "engine/driver fact extractor", "python rule modules under engine/"]
         self.assumptions = []
+        self.broken = []         # floors not met: reported as CHECK-BROKEN (exit 2) unless a violation was found as well
 
     # -- recording
     def rule(self, name, text):
@@ -52,10 +53,14 @@ class Report:
         return cond
 
     def floor(self, what, count, minimum):
-        """fail closed if fewer instances than confirmed by hand on the pinned tree"""
+        """fail closed if fewer instances than confirmed by hand on the pinned tree.  The failure is reported when the run
+        finishes (exit 2), so that rules evaluated later can still report a violation (exit 1) on the same tree."""
         if count < minimum:
-            raise Broken("floor not met for %s: found %d, confirmed minimum %d" % (what, count, minimum))
+            self.broken.append("floor not met for %s: found %d, confirmed minimum %d" % (what, count, minimum))
+            self.notes.append("FLOOR NOT MET %s: %d < %d" % (what, count, minimum))
+            return False
         self.notes.append("floor %s: %d >= %d" % (what, count, minimum))
+        return True
 
     def note(self, s):
         self.notes.append(s)
@@ -83,6 +88,8 @@ class Report:
         for a in other.assumptions:
             if a not in self.assumptions:
                 self.assumptions.append(a)
+        for b in other.broken:
+            self.broken.append("(%s) %s" % (other.prop, b))
         return n
 
     # -- finishing
@@ -168,7 +175,13 @@ class Report:
             json.dump(ev, f, indent=1)
         print("%s: %d rule instances, %d hold, %d known findings, %d violations; %d functions analysed (%.1fs)" % (
             self.prop, n_obl, n_ok, len(knownhits), len(viol), len(self.analysed_fns), time.time() - self.t0))
-        return 1 if viol else 0
+        if viol:
+            return 1
+        if self.broken:
+            for b in self.broken:
+                print("CHECK-BROKEN property=%s %s" % (self.prop, b))
+            return 2
+        return 0
 
 
 def load_known():
